@@ -607,8 +607,86 @@ def check_real_representations(h: Harness):
                         break
 
 
+def check_weights_learnt_between_generations(h: Harness):
+    """a generational loop in which the grammar's production weights are moved between two generations (probabilistic grammatical
+    evolution): programs are mapped from integer genotypes by a decider that reads the weights, so an individual that is mapped
+    AGAIN after the update may get another program -- the fitness recorded on every member of every generation is still the fitness
+    of the program that member has, and nothing is evaluated twice"""
+    import sys as _sys
+    import os as _os
+    _sys.path.insert(0, _os.path.dirname(_os.path.dirname(_os.path.abspath(__file__))))
+    import gram
+    import synth
+    from linear import GE, SGE, safe
+    from geneticengine.algorithms.gp.operators.combinators import ParallelStep, SequenceStep
+    from geneticengine.algorithms.gp.operators.elitism import ElitismStep
+    from geneticengine.algorithms.gp.operators.mutation import GenericMutationStep
+    from geneticengine.algorithms.gp.operators.novelty import NoveltyStep
+    from geneticengine.algorithms.gp.operators.selection import TournamentSelection
+    from geneticengine.solutions.individual import Individual
+    C = gram.ClassSpec
+    rng = h.rng
+    for trial in range(h.n(6, 40)):
+        spec = gram.Spec([C("A0", True, None), C("Lit", False, 0, [("k", ("ann", "int", ("intRange", 0, 9)))], weight=4),
+                          C("Add", False, 0, [("l", ("cls", 0)), ("r", ("cls", 0))], weight=3), C("Neg", False, 0, [("e", ("cls", 0))], weight=3)], 0, [1, 2, 3])
+        b = gram.build(spec)
+        g = b.extract()
+        r = NativeRandomSource(rng.randrange(10**6))
+        name = ("GE", "SGE")[trial % 2]
+        rep = (GE if name == "GE" else SGE)(g, synth.make_decider("progressive", 5, r, g), gene_length=48)
+        calls = []
+
+        def ff(p, calls=calls):
+            calls.append(1)
+            return float(len(repr(p)) * 7 + repr(p).count("Neg"))
+        problem = SingleObjectiveProblem(ff, minimize=False)
+        ev = SequentialEvaluator()
+        pop = []
+        for _ in range(8):
+            st, ge = safe(lambda: rep.create_genotype(r))
+            if st == "ok":
+                pop.append(Individual(ge, rep))
+        step = ParallelStep([ElitismStep(), NoveltyStep(), SequenceStep(TournamentSelection(2), GenericMutationStep(1))], [2, 1, 5])
+        ok = True
+        for gen in range(h.n(4, 8)):
+            st, _ = safe(lambda: ev.evaluate(problem, pop))
+            if st != "ok":
+                break
+            for k, ind in enumerate(pop):
+                if not ind.has_fitness(problem):
+                    continue
+                recd = ind.get_fitness(problem).fitness_components[0]
+                st, ph = safe(lambda: ind.get_phenotype())
+                if st != "ok":
+                    continue
+                n0 = len(calls)
+                real = ff(ph)
+                del calls[n0:]
+                if recd != real:
+                    h.fail("ElitismStep.apply" if gen else "SequentialEvaluator.evaluate", "recorded-fitness-is-not-what-the-function-returns",
+                           f"{name} with the weight-aware decider, weights updated between generations: member {k} of generation {gen} has the recorded "
+                           f"fitness {recd}, the fitness function gives {real} for its program {repr(ph)[:80]}", {"trial": trial, "gen": gen, "k": k})
+                    ok = False
+                    break
+            if not ok:
+                break
+            if len(calls) != ev.number_of_evaluations():
+                h.fail("SequentialEvaluator.evaluate", "dishonest-evaluation", f"{name}, weights updated between generations: the evaluator counted "
+                       f"{ev.number_of_evaluations()} evaluations, the fitness function was invoked {len(calls)} times", {"trial": trial, "gen": gen})
+                break
+            # learning: the weights move (towards whatever; here by a random amount per production)
+            g.update_weights(rng.choice([0.5, 1.0, 2.0]), {c: float(rng.randint(0, 5)) for c in b.classes})
+            st, nxt = safe(lambda: list(step.apply(problem, ev, rep, r, list(pop), len(pop), gen + 1)))
+            if st != "ok":
+                break
+            pop = nxt
+        h.count(f"weights-learnt-between-generations:{name}")
+        h.seen(f"learnt:{trial}:{name}", nontrivial=True)
+
+
 def run(h: Harness):
     check_unnumbered_objectives(h)
+    check_weights_learnt_between_generations(h)
     check_real_representations(h)
     check_aggregate(h)
     check_sequential(h)
